@@ -16,7 +16,8 @@ open Verif.Model.StdioIn Verif.Model.StdioOut
 The marker strings and the `raise` / no-`raise` of every branch of the two `except` clauses are
 REGENERATED from the source (`Gen/StdioExit.lean`); `Model/StdioExit.lean` interprets them.  A
 serialisation failure of the writer ("JSON object must be str …") must never be swallowed; the only
-things swallowed are cancellation and the "cancel scope" noise of a shutdown. -/
+things swallowed are cancellation and the "cancel scope" noise of a shutdown, which anyio raises as a `RuntimeError`:
+an exception of any other class (the caller's, a server's error) is never swallowed, whatever its text. -/
 section exit
 open Verif.Gen.StdioExit Verif.Model.StdioExit
 
@@ -26,28 +27,37 @@ def exitFilters : List Filter := [clientSingle, clientGroup, initSingle, initGro
 /-- the translator covered both functions -/
 theorem c06_exit_translated : Verif.Gen.StdioExit.translatable = true := by decide
 
-/-- **Only "cancel scope" is swallowed.**  For each of the four filters and EVERY exception text: an
-ordinary (non-cancellation) exception is re-raised unless its text contains "cancel scope"
-(case-insensitively) — in particular every JSON serialisation error and every unknown error. -/
-theorem c06_exit_only_cancel_scope_swallowed (f : Filter) (hf : f ∈ exitFilters) (msg : List Char) :
-    decideOne f false msg = !contains "cancel scope".toList (lower msg) := by
+/-- **Only a `RuntimeError` that says "cancel scope" is swallowed.**  For each of the four filters, EVERY exception
+class (given by the names in its MRO) and EVERY exception text: an ordinary (non-cancellation) exception is swallowed
+exactly when it is an instance of `RuntimeError` AND its text contains "cancel scope" (case-insensitively); everything
+else is re-raised — in particular every JSON serialisation error and every unknown error. -/
+theorem c06_exit_only_cancel_scope_swallowed (f : Filter) (hf : f ∈ exitFilters) (mro : List String) (msg : List Char) :
+    decideOne f false mro msg = !(mro.contains "RuntimeError" && contains "cancel scope".toList (lower msg)) := by
   simp only [exitFilters, List.mem_cons, List.mem_nil_iff, or_false] at hf
   rcases hf with rfl | rfl | rfl | rfl <;>
-  · simp only [decideOne, clientSingle, clientGroup, initSingle, initGroup, firstMatch]
-    cases contains "cancel scope".toList (lower msg) <;>
-      cases contains "json object must be str".toList (lower msg) <;> simp
+  · rcases Bool.eq_false_or_eq_true (mro.contains "RuntimeError") with h1 | h1 <;>
+    rcases Bool.eq_false_or_eq_true (contains "cancel scope".toList (lower msg)) with h2 | h2 <;>
+    rcases Bool.eq_false_or_eq_true (contains "json object must be str".toList (lower msg)) with h3 | h3 <;>
+    simp only [decideOne, clientSingle, clientGroup, initSingle, initGroup, firstMatch, guardHolds, h1, h2, h3] <;> rfl
+
+/-- **A caller's or server's error of any other class always propagates, whatever its text** — also when the text
+mentions a cancel scope. -/
+theorem c06_exit_other_class_propagates (f : Filter) (hf : f ∈ exitFilters) (mro : List String) (msg : List Char)
+    (h : mro.contains "RuntimeError" = false) : decideOne f false mro msg = true := by
+  rw [c06_exit_only_cancel_scope_swallowed f hf mro msg, h]; rfl
 
 /-- a serialisation error of the writer always propagates (unless the same text also says "cancel scope") -/
-theorem c06_exit_serialisation_error_propagates (f : Filter) (hf : f ∈ exitFilters) (msg : List Char)
+theorem c06_exit_serialisation_error_propagates (f : Filter) (hf : f ∈ exitFilters) (mro : List String) (msg : List Char)
     (h1 : contains "json object must be str".toList (lower msg) = true)
-    (h2 : contains "cancel scope".toList (lower msg) = false) : decideOne f false msg = true := by
-  rw [c06_exit_only_cancel_scope_swallowed f hf msg, h2]; rfl
+    (h2 : contains "cancel scope".toList (lower msg) = false) : decideOne f false mro msg = true := by
+  rw [c06_exit_only_cancel_scope_swallowed f hf mro msg, h2]; simp
 
 /-- **Groups.**  An exception group leaves `stdio_client()` / `stdio_client_with_initialize()` exactly when
-some member is neither a cancellation nor a "cancel scope" message; a lone cancellation is never
-caught (it is not an `Exception`). -/
-theorem c06_exit_group (single grp : Filter) (hg : grp ∈ exitFilters) (ms : List (Bool × List Char)) :
-    propagates single grp (.group ms) = ms.any (fun m => !m.1 && !contains "cancel scope".toList (lower m.2))
+some member is neither a cancellation nor a `RuntimeError` with a "cancel scope" message; a lone cancellation is
+never caught (it is not an `Exception`). -/
+theorem c06_exit_group (single grp : Filter) (hg : grp ∈ exitFilters) (ms : List (Bool × List String × List Char)) :
+    propagates single grp (.group ms)
+      = ms.any (fun m => !m.1 && !(m.2.1.contains "RuntimeError" && contains "cancel scope".toList (lower m.2.2)))
     ∧ propagates single grp .cancelled = true := by
   refine ⟨?_, rfl⟩
   simp only [propagates]
@@ -55,13 +65,19 @@ theorem c06_exit_group (single grp : Filter) (hg : grp ∈ exitFilters) (ms : Li
   funext m
   cases hc : m.1 with
   | true => simp [decideOne, hc]
-  | false => simp [c06_exit_only_cancel_scope_swallowed grp hg m.2, hc]
+  | false => simp [c06_exit_only_cancel_scope_swallowed grp hg m.2.1 m.2.2, hc]
 
-example : decideOne clientSingle false "JSON object must be str, bytes or bytearray, not dict".toList = true
-    ∧ decideOne initGroup false "Attempted to exit a Cancel Scope that isn't the current task's".toList = false
-    ∧ decideOne clientSingle false "boom".toList = true
-    ∧ propagates initSingle initGroup (.group [(true, []), (false, "cancel scope".toList)]) = false
-    ∧ propagates initSingle initGroup (.group [(true, []), (false, "x".toList)]) = true := by decide
+def mroRuntime : List String := ["RuntimeError", "Exception", "BaseException", "object"]
+def mroValue : List String := ["ValueError", "Exception", "BaseException", "object"]
+
+example : decideOne clientSingle false mroValue "JSON object must be str, bytes or bytearray, not dict".toList = true
+    ∧ decideOne initGroup false mroRuntime "Attempted to exit a Cancel Scope that isn't the current task's".toList = false
+    ∧ decideOne initGroup false mroValue "Attempted to exit a Cancel Scope that isn't the current task's".toList = true
+    ∧ decideOne clientSingle false ("RecursionError" :: mroRuntime) "cancel scope".toList = false
+    ∧ decideOne clientSingle false mroRuntime "boom".toList = true
+    ∧ propagates initSingle initGroup (.group [(true, [], []), (false, mroRuntime, "cancel scope".toList)]) = false
+    ∧ propagates initSingle initGroup (.group [(true, [], []), (false, mroValue, "cancel scope".toList)]) = true
+    ∧ propagates initSingle initGroup (.group [(true, [], []), (false, mroRuntime, "x".toList)]) = true := by decide
 
 end exit
 
